@@ -56,8 +56,8 @@ META = {
     "level_note": "Only hypothesis left: reference counts of a pre-existing _PATCH_STATE are >= 1 (a code invariant; "
                   "vacuous from the empty table). jit/pjit trace caches, threads and ContextVars are OUTSIDE the "
                   "Lean model: covered by behavioural probes only (warm jitted probes and jitted functions whose "
-                  "first trace happens inside a conversion, called after every conversion) — which find the known "
-                  "defect F-C13-jit-cache-pollution on the current tree. Trusted: Lean kernel + 3 axioms; the hand-written model "
+                  "first trace happens inside a conversion, called after every conversion); the pollution they found "
+                  "was repaired by e2c85fd (F-C13-jit-cache-pollution, fixed). Trusted: Lean kernel + 3 axioms; the hand-written model "
                   "(validated by the sandbox correspondence each run); unwinding setattr/delattr assumed not to "
                   "raise; Python's getattr = MRO lookup + descriptor protocol; targets have a __dict__.",
     "design_ref": "DESIGN.md §3 C13",
